@@ -216,6 +216,8 @@ func spellDifferently(p *Project, r *Rand) {
 
 func (r *Rand) Pick2(a ...int) int { return a[r.Intn(len(a))] }
 
+var c06BanWords = []string{"TAG", "ENUM", "Description", "SERVER", "TYPE", "Query"}
+
 func (c06Engine) Gen(job *Job) *Case {
 	r := NewRand(job.Seed)
 	c := &Case{Prop: "C06", Seed: job.Seed, Entry: "path"}
@@ -246,6 +248,12 @@ func (c06Engine) Gen(job *Job) *Case {
 	}
 	if r.Chance(1, 4) {
 		c.Entry = "mem"
+	}
+	if r.Chance(1, 5) {
+		// the observed build bans a directive kind; the option VALUE is one per keyword per process
+		// (see bannedOption) and earlier builds of the process have used it too, alone or together
+		// with a second one (seeded change C06-u)
+		c.Banned = []string{c06BanWords[r.Intn(len(c06BanWords))]}
 	}
 	n := r.Range(3, 5)
 	if job.Tier == "thorough" && r.Chance(1, 3) {
@@ -378,7 +386,17 @@ func observe(c *Case, e Env, seed uint64) (text string, permuted []string) {
 				dir = projDir
 			}
 			must(MaterialiseAt(dir, q.Files))
-			if o := BuildPath(filepath.Join(dir, q.Root)); o.OK {
+			var pb []string
+			if len(c.Banned) > 0 && pr.Chance(2, 3) {
+				pb = []string{c.Banned[0]}
+				if other := c06BanWords[pr.Intn(len(c06BanWords))]; other != c.Banned[0] {
+					pb = append(pb, other)
+					if pr.Chance(1, 3) {
+						pb[0], pb[1] = pb[1], pb[0]
+					}
+				}
+			}
+			if o := BuildPath(filepath.Join(dir, q.Root), pb...); o.OK {
 				call(o.japi, "ToJson")
 				call(o.japi, "ToOpenAPIJson")
 			}
